@@ -407,6 +407,10 @@ prop("C15", [
     {"name": "c15_client", "sources": ["c15_client.cc"], "c_sources": ["common/netgate.c"], "flavour": "asan",
      "args": {"quick": ["--D=1", "--timeout-ms=170000", "--deadline-s=170"],
               "thorough": ["--thorough=1", "--D=2", "--timeout-ms=2400000", "--deadline-s=2400"]}},
+    # the per-host ring of waiting requests, instantiated with small capacities: every enqueue/dequeue sequence
+    {"name": "c15_reqqueue", "sources": ["c15_reqqueue.cc"], "flavour": "asan", "link_lib": False,
+     "args": {"quick": ["--len=16", "--timeout-ms=60000", "--deadline-s=120"],
+              "thorough": ["--len=20", "--timeout-ms=600000", "--deadline-s=900"]}},
 ],
     rule="one case = a scenario (client threads 1..2, maxConnectionsPerHost 1..2, batch of n<=3 (thorough 4) tagged "
          "requests, per-request server behaviour in {whole, two pieces, chunked, whole-then-close} - all vectors for "
